@@ -45,6 +45,7 @@ from typing import (
 )
 
 from .._dns import DNSPointer, DNSQuestion, DNSQuestionType
+from .._exceptions import NotRunningException
 from .._logger import log
 from .._protocol.outgoing import DNSOutgoing
 from .._record_update import RecordUpdate
@@ -760,7 +761,12 @@ class _ServiceBrowserBase(RecordUpdateListener):
     async def _async_start_query_sender(self) -> None:
         """Start scheduling queries."""
         if not self.zc.started:
-            await self.zc.async_wait_for_start()
+            try:
+                await self.zc.async_wait_for_start()
+            except NotRunningException:
+                # The instance was closed before it had started, there is
+                # nothing to ask and nobody awaits this task
+                return
         self.query_scheduler.start(self._loop)
 
 
